@@ -38,6 +38,8 @@ HARNESSES = [
     ('k_nom_take_i32', 'lib.rs', ['SHIM'], 'shimval', 'bits::complete::take -> i32: count <= 31', 'quick', 900),
     ('k_nom_take_u8_wide', 'lib.rs', ['SHIM'], 'shimval', 'take -> u8 with 8 < count and count + offset < 16: no panic, position', 'quick', 600),
     ('k_nom_many_1_4', 'lib.rs', ['SHIM'], 'shimval', 'multi::many_m_n(1, 4, one-byte parser) on 0..=6 bytes', 'quick', 900),
+    ('k_nom_glue', 'lib.rs', ['SHIM'], 'shimval', 'combinator::{opt, peek, verify, map}, branch::alt, sequence::{terminated, delimited} over one-byte parsers on 0..=4 bytes', 'quick', 900),
+    ('k_nom_bits', 'lib.rs', ['SHIM'], 'shimval', 'bits::bits over a 6-bit take on 0..=2 bytes', 'quick', 600),
     ('k_nom_tag_take_anychar', 'lib.rs', ['SHIM'], 'shimval', 'bytes::complete::{tag, take}, character::complete::anychar on 0..=4 bytes', 'quick', 600),
     # ---- bounded stand-ins (never counted as proved)
     ('k_checksum_0', 'sentence.rs', ['C02', 'C01'], 'bounded', 'check_checksum: 0 bytes, all expected values', 'quick', 300),
